@@ -708,7 +708,7 @@ def _windows_unconditional(ctx, pkg):
             inner = v[2][0] if v[0] == "call" and v[1] == ("global", "float") and len(v[2]) == 1 and not v[3] else None
             while inner is not None and inner[0] == "meth" and inner[2] == "strip" and not inner[3]:
                 inner = inner[1]          # float() ignores surrounding blanks anyway
-            ok = inner is not None and (inner[0] in ("item", "sub", "elem") or (inner[0] == "phi" and cls == "UCLCHEMReaction"))
+            ok = inner is not None and (inner[0] in ("item", "sub", "elem") or (inner[0] in ("phi", "ifexp") and cls == "UCLCHEMReaction"))
             key = f"{cls}:{attr} = float(field)"
             if ok:
                 ctx.ok("R4", key, (file, st[-1].line), f"self.{attr} is float(<the field of the record>)")
@@ -744,7 +744,8 @@ def _krome_window_stores(ctx, pkg, fn):
     def res(name):
         _, f = pkg.resolve("KROMEReaction", name)
         return pkg.folded("KROMEReaction", name, keep=KEEP) if f is not None and name.startswith("_") and not name.startswith("__") and name not in KEEP else None
-    fl = Flow(pkg.folded("KROMEReaction", "_parse_string", keep=KEEP), KROME, resolver=res)
+    # (small module-level helper functions of the module -- `_remove(text, token)` -- are read as the value they return)
+    fl = Flow(pkg.folded("KROMEReaction", "_parse_string", keep=KEEP), KROME, resolver=res, func_resolver=lambda name: pkg.functions.get((KROME, name)))
     want_ops = {"<", ">", ".LE.", ".GE.", ".LT.", ".GT."}
     want_none = {"N", "NONE", "N/A", "NO", ""}
     stores = [f for f in fl.facts if f.kind == "attrstore" and f.target in ("temp_min", "temp_max") and f.extra.get("obj") == ("param", "self")]
@@ -838,6 +839,10 @@ def _krome_window_stores(ctx, pkg, fn):
         if base != val:
             if any(isinstance(x, tuple) and x and x[0] in ("carried", "after", "acc", "unknown") for x in walk(base)) or not reps:
                 return None
+            if pos_of(base) is None or base not in cands:
+                # not simply ANOTHER field of the line (a call of a helper this rule does not read, ..): where the text comes from is not understood
+                ctx.unrec("R4", f"KROME:{which}:field", W, f"cannot see which field of the line self.{f.target} is decoded from: {show(base)[:100]}")
+                continue
             ctx.bad("R4", f"KROME:{which}:field", W, f"self.{f.target} is decoded from {show(base)[:80]}, not from the field paired with the keyword {which!r}", found=show(base)[:100])
             continue
         decided += 1
